@@ -13,11 +13,12 @@ Inductive ctx_expr :=
   | CxBackground                        (* context.Background() *)
   | CxGun                               (* g.Ctx: the instance context - ends when the POOL is done, no deadline *)
   | CxWithTimeout (parent : ctx_expr)   (* context.WithTimeout(parent, timeout) *)
-  | CxWithMD (parent : ctx_expr).       (* metadata.NewOutgoingContext(parent, md): the parent with a value added *)
+  | CxWithMD (parent : ctx_expr)        (* metadata.NewOutgoingContext(parent, md): the parent with a value added *)
+  | CxOther.                            (* an expression the translator does not understand: no deadline is assumed *)
 
 Fixpoint ctx_deadline (timeout : N) (e : ctx_expr) : option N :=
   match e with
-  | CxBackground | CxGun => None
+  | CxBackground | CxGun | CxOther => None
   | CxWithTimeout p => match ctx_deadline timeout p with None => Some timeout | Some d => Some (N.min d timeout) end
   | CxWithMD p => ctx_deadline timeout p
   end.
